@@ -7,7 +7,7 @@
     k-th and later underlying writes fail (k < 0: none), running that variant.
     [run c sched s] runs an arbitrary schedule (a list of thread names). *)
 From Coq Require Import ZArith List Bool.
-From Hts Require Import Base.Prim Generated Model.FaultWriter Model.FaultReader Proofs.FaultWriter Proofs.FaultReader.
+From Hts Require Import Base.Prim Generated Model.FaultWriter Model.FaultReader Proofs.FaultWriter Proofs.FaultReader Proofs.FaultReaderFlat.
 Import ListNotations.
 Open Scope Z_scope.
 
@@ -81,11 +81,10 @@ Print Assumptions writer_calls_return_refuted_before_repair.
     offset X (persistently or [trans] times) and whose [seekk]-th Seek fails:
     after any sequence of Read/Seek/Close the block the reader serves bytes
     from is the member of the file that starts at the block's base — base,
-    size and data belong together — so bytes handed out are true data of the
-    member at that base.  Partial: the statement about flat positions of the
-    bytes of one Read call and "clean EOF only at the true end" is established
-    by the correspondence run and the oracle only; the async reader and the
-    caches are not modelled. *)
+    size and data belong together — and the count reader is in register with
+    the source.  This is the invariant [reader_faults_sound] below is built on;
+    "partial" only in that it is block-level.  The async reader and the caches
+    are not modelled. *)
 Theorem reader_faults_sound_partial :
   forall f x trans seekk ops,
     let '(s0, e0) := ropen rfixed f x trans seekk in
@@ -94,6 +93,25 @@ Theorem reader_faults_sound_partial :
     (cvalid s = true -> member_at f (cbase s) = Some (chsize s, cdata s)).
 Proof. exact reader_blocks_sound_gen. Qed.
 Print Assumptions reader_faults_sound_partial.
+
+(** Synchronous reader at flat byte positions, for every file, every fault plan
+    (fault offset, persistent or transient, failing Seek index) and every
+    history of Read / Seek / Close after a successful NewReader.  [flat_ok]
+    tracks the position the caller is entitled to assume: 0 after NewReader,
+    the sought position after a Seek that returned nil, advanced by the bytes
+    of every Read that returned nil, unknown after an error until the next
+    successful Seek.  Then: the bytes of every Read are exactly the file's data
+    at that position ([is_seg]); a Read that reports io.EOF (class 3) has
+    reached exactly the end of the data; while the position is unknown, Read
+    returns no bytes and a non-nil error.  ([seeks_in_range]: Seek offsets lie
+    inside the block sought, as the virtual offsets of an index do.) *)
+Theorem reader_faults_sound :
+  forall f x trans seekk ops,
+    wf_file f -> seeks_in_range f ops ->
+    let '(s0, e0) := ropen rfixed f x trans seekk in
+    e0 = 0 -> flat_ok f (Some 0) ops (run_ops rfixed s0 ops).
+Proof. exact reader_flat_gen. Qed.
+Print Assumptions reader_faults_sound.
 
 (** Retry after a failed Seek: in any reachable state, if a Seek fails (in the
     underlying seeker or while fetching) and a later Seek to the same member
